@@ -342,6 +342,9 @@ func registerIntrinsics(m *Machine) {
 		return l
 	}
 	I["(*math/big.Int).Bytes"] = func(m *Machine, fr *frame, a []Value, c *ssa.CallCommon) Value {
+		if bs, ok := m.natBytes[m.bigOf(a[0])]; ok {
+			return m.sliceFromBytes(append([]*Term{}, bs...))
+		}
 		abs := tt.IAbs(m.bigOf(a[0]))
 		if !abs.IsConst() && lenOnlyUse(fr) {
 			// only len(x.Bytes()) is observed: give the length as one term instead of forking
@@ -370,7 +373,14 @@ func registerIntrinsics(m *Machine) {
 		return buf
 	}
 	I["(*math/big.Int).SetBytes"] = func(m *Machine, fr *frame, a []Value, c *ssa.CallCommon) Value {
-		return m.setBig(a[0], m.bytesToNat(m.bytesOfSlice(a[1].(SliceV))))
+		bs := m.bytesOfSlice(a[1].(SliceV))
+		n := m.bytesToNat(bs)
+		// remember the big-endian bytes this value was built from when the leading byte is a non-zero
+		// constant: x.Bytes() of the very same term is then those bytes (no fresh symbols, no uniqueness query)
+		if len(bs) > 0 && bs[0].IsConst() && bs[0].U != 0 && !n.IsConst() {
+			m.natBytes[n] = append([]*Term{}, bs...)
+		}
+		return m.setBig(a[0], n)
 	}
 	I["(*math/big.Int).String"] = func(m *Machine, fr *frame, a []Value, c *ssa.CallCommon) Value {
 		p := a[0].(PtrV)
@@ -381,7 +391,7 @@ func registerIntrinsics(m *Machine) {
 		if x.IsConst() {
 			return m.mkString(x.Big.String())
 		}
-		return StringV{Opaque: tt.UF("$bigstr", BV(64), x)}
+		return StringV{Opaque: tt.UF("$decstr", BV(64), x), DecOf: x}
 	}
 	I["(*math/big.Int).Text"] = func(m *Machine, fr *frame, a []Value, c *ssa.CallCommon) Value {
 		x := m.bigOf(a[0])
@@ -392,6 +402,12 @@ func registerIntrinsics(m *Machine) {
 		return StringV{Opaque: tt.UF("$bigtext", BV(64), x, a[1].(*Term))}
 	}
 	I["(*math/big.Int).SetString"] = func(m *Machine, fr *frame, a []Value, c *ssa.CallCommon) Value {
+		if sv := a[1].(StringV); sv.DecOf != nil {
+			if b, okb := m.concreteInt(a[2]); okb && b == 10 {
+				m.setBig(a[0], sv.DecOf)
+				return TupleV{a[0], tt.True}
+			}
+		}
 		s, ok := a[1].(StringV).Concrete()
 		base, ok2 := m.concreteInt(a[2])
 		if !ok || !ok2 {
